@@ -19,7 +19,7 @@
 (* The C entry points (extern "C") and the Fortran bind(C) views are the same actions  *)
 (* with p = "d": that identification *is* property C17.                                *)
 (***************************************************************************************)
-EXTENDS Naturals, Sequences, FiniteSets, TLC
+EXTENDS Naturals, Sequences, FiniteSets, TLC, MasaNames
 
 CONSTANTS
   Prec,            \* scalar types, subset of {"d", "ld"}
@@ -69,13 +69,6 @@ IsFixture(n) == Entry(n).fixture
 Provides(n, fn, sig)  == <<fn, sig>> \in Entry(n).caps
 ProbeOnly(n, fn, sig) == <<fn, sig>> \in Entry(n).fcaps
 
-(* Name normalisation (C13) works on character codes: lower-case, drop every '-' and ' '. *)
-RECURSIVE NormCodes(_)
-NormCodes(cs) ==
-  IF cs = <<>> THEN <<>>
-  ELSE LET c == Head(cs)
-           l == IF c \in 65..90 THEN c + 32 ELSE c
-       IN  IF c = 45 \/ c = 32 THEN NormCodes(Tail(cs)) ELSE <<l>> \o NormCodes(Tail(cs))
 \* the catalogue name a solution string resolves to, or None
 Resolve(cs) ==
   LET n == NormCodes(cs)
